@@ -72,7 +72,7 @@ var c19Others = []string{"Expenses:Food", "Expenses:Rent", "Income:Salary", "Equ
 
 // genC19Journal returns the directives (as text) of a valid journal, the number of distinct
 // dates and, per date, nothing else; failure kinds mutate it afterwards.
-func genC19Journal(r *rng, kind string) (dirs []string, ndays int, injected bool) {
+func genC19Journal(r *rng, kind string, accruals bool) (dirs []string, ndays int, injected bool) {
 	nd := r.rangeInt(3, 24)
 	start := time.Date(2019+r.intn(4), time.Month(1+r.intn(12)), 1+r.intn(27), 0, 0, 0, 0, time.UTC)
 	var dates []time.Time
@@ -139,9 +139,34 @@ func genC19Journal(r *rng, kind string) (dirs []string, ndays int, injected bool
 			dirs = append(dirs, fmt.Sprintf("%s balance %s %d CHF", day(dt), a, v))
 		}
 	}
+	if accruals && r.chance(60) {
+		// (race cases only: the census of the traced cases counts one Builder.Add per generated directive)
+		// an accrued transaction in USD (the balance assertions are on CHF positions): its period transactions lie on
+		// adjacent days, are valued at changing prices and travel through the stages one behind the other (seeded
+		// change C19c-accrual-postings-shared let them share their postings: Valuate wrote a day's value while a
+		// later stage still read the previous day's; no generated journal had an accrual)
+		dt := dates[r.intn(len(dates))]
+		iv := pick(r, []string{"daily", "daily", "weekly", "monthly"})
+		span := map[string]int{"daily": r.rangeInt(2, 12), "weekly": r.rangeInt(8, 40), "monthly": r.rangeInt(30, 150)}[iv]
+		s0 := dt.AddDate(0, 0, r.rangeInt(-3, 5))
+		if s0.Before(start) {
+			s0 = start
+		}
+		e0 := s0.AddDate(0, 0, span)
+		for k := 0; k <= span && iv == "daily"; k += 1 + r.intn(2) {
+			dirs = append(dirs, fmt.Sprintf("%s price USD 0.%d CHF", day(s0.AddDate(0, 0, k)), r.rangeInt(80, 99)))
+		}
+		dirs = append(dirs, fmt.Sprintf("@accrue %s %s %s Assets:Broker:Main\n%s \"accrued\"\nAssets:Cash Expenses:Rent %d.%02d USD",
+			iv, day(s0), day(e0), day(dt), r.rangeInt(1, 3000), r.intn(100)))
+	}
 	distinct := map[string]bool{}
 	for _, d := range dirs {
-		distinct[d[:10]] = true
+		k := d[:10]
+		if strings.HasPrefix(d, "@accrue") {
+			// the directive's date is on the line after the annotation; the accrual adds its period ends as days
+			k = d[strings.Index(d, "\n")+1:][:10]
+		}
+		distinct[k] = true
 	}
 	return dirs, len(distinct), injected
 }
@@ -157,7 +182,7 @@ func genC19(out *caseWriter, seed uint64, n int, args []string) error {
 	for i := 0; i < n; i++ {
 		r := newRng(seed, "C19", i)
 		kind := kinds[r.intn(len(kinds))]
-		dirs, ndays, injected := genC19Journal(r, kind)
+		dirs, ndays, injected := genC19Journal(r, kind, race)
 		if !injected && (kind == "assert" || kind == "noprice" || kind == "notopen") {
 			kind = "ok" // the failure could not be placed (e.g. no position to assert on): a valid journal
 		}
